@@ -127,6 +127,7 @@ func c14Build(seed int64) func(id int, raw json.RawMessage) *Job {
 		mode := scModeOf(raw, scSeed)
 		r := scRenderMode(items, mode)
 		pc := &proto.Case{ID: id, Files: r.files(), Init: json.RawMessage(allOnLocal)}
+		scMaybeProject(pc, r)
 		for i, f := range r.Files {
 			pc.Steps = append(pc.Steps, openStep(f, r.Text[i]))
 		}
